@@ -76,6 +76,31 @@ theorem edge_addEdge {g : Graph} {a b x y : Nat} (h : Edge (addEdge g a b) x y) 
   · rw [if_neg hax] at h
     left; exact h
 
+theorem edge_addEdgeOnce {g : Graph} {a b x y : Nat} (h : Edge (addEdgeOnce g a b) x y) :
+    Edge g x y ∨ (x = a ∧ y = b) := by
+  unfold Edge succs addEdgeOnce at *
+  rw [Assoc.lookup_upsert] at h
+  by_cases hax : (a == x) = true
+  · have e : a = x := eq_of_beq hax
+    rw [if_pos hax] at h
+    cases hl : Assoc.lookup g a with
+    | none =>
+      rw [hl] at h
+      simp at h
+      right; exact ⟨e.symm, h⟩
+    | some l =>
+      rw [hl] at h
+      simp only [Option.getD_some] at h
+      by_cases hc : l.contains b = true
+      · rw [if_pos hc] at h
+        left; rw [← e, hl]; exact h
+      · rw [if_neg hc] at h
+        rcases List.mem_append.mp h with h | h
+        · left; rw [← e, hl]; exact h
+        · right; exact ⟨e.symm, List.mem_singleton.mp h⟩
+  · rw [if_neg hax] at h
+    left; exact h
+
 theorem edge_foldRemove {x y : Nat} (ws : List (Nat × Nat)) :
     ∀ (g : Graph), Edge (ws.foldl (fun g w => removeEdge g w.1 w.2) g) x y → Edge g x y := by
   induction ws with
